@@ -417,6 +417,46 @@ def check(run):
 
 
 # ----------------------------------------------------------------------------
+def _admits_present_members(text, polarity, v):
+    """True when the filter `text` (required to evaluate to `polarity`) is passed by every member that is not None and
+    not a sized empty container; False when some such member is dropped or the filter tests anything else."""
+    import itertools
+    try:
+        e = ast.parse(text, mode="eval").body
+    except SyntaxError:
+        return False
+
+    def ev(n, env):
+        if isinstance(n, ast.BoolOp):
+            vals = [ev(x, env) for x in n.values]
+            if any(x is None for x in vals):
+                return None
+            return all(vals) if isinstance(n.op, ast.And) else any(vals)
+        if isinstance(n, ast.UnaryOp) and isinstance(n.op, ast.Not):
+            x = ev(n.operand, env)
+            return None if x is None else not x
+        t = ast.unparse(n)
+        if t == f"{v} is None":
+            return env["N"]
+        if t == f"{v} is not None":
+            return not env["N"]
+        if t == f"hasattr({v}, '__len__')":
+            return env["H"]
+        if t in (f"len({v}) > 0", f"len({v}) != 0", f"len({v}) >= 1", f"len({v})", f"0 < len({v})"):
+            return env["L"]
+        if t in (f"len({v}) == 0", f"len({v}) < 1", f"len({v}) <= 0", f"0 == len({v})"):
+            return not env["L"]
+        return None
+
+    for N, H, L in itertools.product((False, True), repeat=3):
+        if N or (H and not L):
+            continue  # members that may be skipped
+        got = ev(e, {"N": N, "H": H, "L": L})
+        if got is None or got != polarity:
+            return False
+    return True
+
+
 def _containers(run, ix):
     # DataStore.__hash__: every value of self.data contributes hash(v); only None / empty are skipped
     f = ix.func("trimesh.caching:DataStore.__hash__")
@@ -429,9 +469,9 @@ def _containers(run, ix):
         v = "_1" if c.iter.endswith("values()") else "_2"
         contributes = c.elt in (f"hash({v})", f"{v}.__hash__()", f"[hash({v})]", f"({v}.__hash__(),)") and \
             (c.acc is None or (c.how in ("append", "add", "extend", "Add=", "BitXor=") and flows_to_return(f.node, c.acc)))
-        allowed = {(f"{v} is None", False), (f"not hasattr({v}, '__len__') or len({v}) > 0", True),
-                   (f"hasattr({v}, '__len__')", False), (f"len({v}) > 0", True), (f"len({v}) == 0", False)}
-        extra = [t for t in c.filters if t not in allowed]
+        # a member may be skipped only when it is None or sized-and-empty: over the atoms N (is None), H (has __len__),
+        # L (len > 0) every filter must let through whatever satisfies `not N and (not H or L)` (truth table)
+        extra = [t for t in c.filters if not _admits_present_members(t[0], t[1], v)]
         if extra:
             what = f"filter `{extra[0][0]}` ({'taken' if extra[0][1] else 'not taken'}) drops members from the hash"
         elif not contributes:
